@@ -16,7 +16,12 @@ for i in range(1, 21):
         'evidence_file': f'/verif/evidence/{pid}.json',
         'replay_cmd_template': './check replay {path}',
         'engine': 'ttvc+rtc' if P.T1 else 'rtc',
-        'level_claimed': {'category': P.LEVEL, 'text': P.EXPLANATION, 'design_ref': f'DESIGN.md section 3 ({pid}), section 10'},
+        'level_claimed': {'category': P.LEVEL, 'text': P.EXPLANATION + (
+            f' [As built: this check runs {len(P.T1)} T1 units ({len(P.T1) - len(getattr(P, "T1_VIA_CALLEES", []))} tagged with the property, '
+            f'{len(getattr(P, "T1_VIA_CALLEES", []))} through the callee contracts they assume) generating {sum(P.T1_COUNTS.values())} obligations from the '
+            f'current source; the sentence above is the core that was planned first - the full list of what the units establish and what '
+            f'stays bounded is in DESIGN.md 10.2, the unit list in props/{pid}.py, the discharged obligations in the evidence file.]'),
+            'design_ref': f'DESIGN.md section 3 ({pid}), section 10'},
         'level_note': P.NOTE,
         'technique': P.TECHNIQUE,
     })
@@ -35,7 +40,7 @@ m = {
     ],
     'checks': checks,
     'not_applicable': [{'property_id': k, 'reason': v} for k, v in NA.items()],
-    'notes': 'Exit codes of ./check: 0 held, 1 VIOLATION, 2 UNDECIDED (timeout / unsupported construct, never a violation), 3 internal error. known_findings.json lists recorded genuine defects and the fix: commits made to /repo.',
+    'notes': 'Exit codes of ./check: 0 held on everything explored (units / obligations / cases that could not be decided - contract does not fit a restructured source, construct outside the subset, time-out - are printed as UNDECIDED lines and listed in the evidence, never counted as discharged), 1 VIOLATION (line VIOLATION property=<id> replay=<path>, ending in no-failing-input-found when no input is available), 2 a vacuity / soundness guard of the machinery itself failed (nothing the run says is to be trusted; never a violation), 3 internal error. known_findings.json lists recorded genuine defects (KNOWN-FINDING lines, exit 0) and the fix: commits made to /repo (fixed: entries suppress nothing). DESIGN.md 1.7 has the decision rules.',
 }
 json.dump(m, open(os.path.join(ROOT, 'MANIFEST.json'), 'w'), indent=1)
 try:
